@@ -157,6 +157,7 @@ def main():
                      what="harness does not build"); ck.finish(trusted_base=[], assumptions=[]); return
     rng = ck.rng
     fails, mism = [], []
+    import gen_common; gen_common.translator_selfcheck(ck, rb, mism)
 
     def both(exe, lines, stream):
         real, _, _ = vlib.run_lines(exe, lines)
